@@ -122,7 +122,7 @@ def r2(ctx):
     seen = set()
     for nm in names:
         _alignment_effects(ctx, run, nm, seen, out)
-    ctx.require(len(out) >= 12, "fewer than 12 effects on alignments found (%d)" % len(out))
+    ctx.require(len(out) >= 6, "fewer than 6 effects on alignments found (%d)" % len(out))
     for fi, st in out:
         ok = False
         why = "effect on the alignment other than setting HP/PS/PC"
@@ -170,14 +170,21 @@ def r3(ctx):
                 if (tagged_var, True) in atoms(cfg.ast(t), lab == "true"):
                     for s in cfg.succ(t, lab):
                         tagged_edges.add((t, s))
+    hnode = cfg.node_of(hstmt)
     for tag in TAGS:
         nodes = _set_tag_nodes(cfg, al, tag)
         bad = None
         for b in cfg.succ(head, "loop"):
-            p = cfg.find_path(b, wn, avoid_nodes=nodes, avoid_edges=tagged_edges)
+            # (i) neither the tag was set nor the helper ran in THIS iteration
+            p = cfg.find_path(b, wn, avoid_nodes=nodes | {hnode})
             if p is not None:
                 bad = [head] + p
-        ctx.ob(run.qual, "tag-defined-at-write:%s" % tag, bad is None, run.loc(cfg.ast(wn)), "on every path to the write, %s was set (value or None) or the helper reported the read as tagged" % tag if bad is None else "an alignment can be written with a stale %s tag from the input" % tag, cfg.describe_path(bad))
+        # (ii) the helper ran: only its `tagged` answer excuses a missing set_tag
+        if bad is None:
+            p = cfg.find_path(hnode, wn, avoid_nodes=nodes, avoid_edges=tagged_edges, start_after=True)
+            if p is not None:
+                bad = p
+        ctx.ob(run.qual, "tag-defined-at-write:%s" % tag, bad is None, run.loc(cfg.ast(wn)), "on every path to the write, %s was set (value or None) in this iteration, or the helper ran in this iteration and reported the read as tagged" % tag if bad is None else "an alignment can be written with a stale %s tag: neither set_tag(%r, ...) nor a fresh `tagged` answer of the helper lies on the path" % (tag, tag), cfg.describe_path(bad))
     # helper: tagged => all three set
     h = ctx.func(MOD + ".attempt_add_phase_information")
     hcfg = ctx.cfg(h)
@@ -267,4 +274,4 @@ RULES = [
     ("C10.R3", "stale tags: HP/PS/PC defined on every path to the write", r3),
     ("C10.R4", "tie and empty rejection; tuple layouts; tag values", r4),
 ]
-FLOORS = {"C10.R1": 9, "C10.R2": 12, "C10.R3": 10, "C10.R4": 13}
+FLOORS = {"C10.R1": 9, "C10.R2": 6, "C10.R3": 10, "C10.R4": 13}
